@@ -445,6 +445,9 @@ func (e *specEnv) evalCall(n *ECall) sv {
 	case "cap":
 		need(1)
 		a := args()[0]
+		if _, ok := types.Unalias(a.ty).Underlying().(*types.Slice); !ok {
+			specFail("cap of %s", a.ty)
+		}
 		return sv{app("s-cap", a.t), tInt}
 	case "min", "max":
 		as := args()
@@ -543,6 +546,18 @@ func (e *specEnv) evalCall(n *ECall) sv {
 		need(2)
 		as := args()
 		return sv{app(n.Fun, as[0].t, as[1].t), tInt}
+	case "ownedref":
+		need(1)
+		return sv{sel(c.heapGet("GH_owned", "(Array Int Bool)"), args()[0].t), tBool}
+	case "owned":
+		// ghost: the object (array of a slice, map) is recorded by the allocator
+		need(1)
+		a := args()[0]
+		if isInterface(a.ty) {
+			h := c.heapGet("GH_owned", "(Array Int Bool)")
+			return sv{or(and(app("(_ is VSlice)", a.t), sel(h, app("s-arr", app("vslice", a.t)))), and(app("(_ is VMap)", a.t), sel(h, app("vmap", a.t)))), tBool}
+		}
+		return sv{sel(c.heapGet("GH_owned", "(Array Int Bool)"), c.refOf(a)), tBool}
 	case "bitor_fact":
 		// model axiom of | on non-negative integers, instantiated explicitly:
 		// bit k of (a | b) is set iff it is set in a or in b
@@ -570,6 +585,9 @@ func (e *specEnv) evalCall(n *ECall) sv {
 	case "arr", "off":
 		need(1)
 		a := args()[0]
+		if _, ok := types.Unalias(a.ty).Underlying().(*types.Slice); !ok {
+			specFail("%s of %s", n.Fun, a.ty)
+		}
 		return sv{app("s-"+n.Fun, a.t), tInt}
 	case "alloc":
 		return sv{c.alloc(), tInt}
